@@ -510,4 +510,33 @@ theorem runSched_append (P : Params Mem Job) (strict : Bool) (σ σ' : State Mem
     · rename_i σ1 h1; exact ih σ1 h
     · contradiction
 
+/-- A property of scratch contents that `New` establishes and every write
+preserves holds of every scratch, of every remembered initial contents. -/
+theorem good_reachable (P : Params Mem Job) (good : Mem → Prop) (hf : good P.fresh)
+    (hp : ∀ j f, f ∈ P.prog j → ∀ m, good m → good (f m)) (strict : Bool)
+    (σ : State Mem Job) (hr : Reachable P strict σ) :
+    (∀ x, good (σ.mem x)) ∧ (∀ t j p x m0 k, σ.pc t = .gRun j p x m0 k → good m0) ∧
+    (∀ h H, σ.handle h = some H → good H.init) := by
+  induction hr with
+  | init => simp [init, hf]
+  | step t a _ hs ih =>
+    obtain ⟨i1, i2, i3⟩ := ih
+    cases a <;> simp only [step?] at hs <;> (repeat' split at hs) <;> (try contradiction) <;>
+      (try (cases hs; first | exact ⟨i1, i2, i3⟩ | (refine ⟨?_, ?_, ?_⟩ <;> simp only [upd] <;> intros <;> grind)))
+    -- the remaining case is `write`
+    rename_i j p x m0 k hpc _ f hfk
+    cases hs
+    have hmem : f ∈ P.prog j := List.mem_of_getElem? hfk
+    refine ⟨?_, ?_, i3⟩
+    · intro y
+      simp only [upd]
+      split
+      · exact hp j f hmem _ (i1 x)
+      · exact i1 y
+    · intro t' j' p' x' m0' k' h'
+      simp only [upd] at h'
+      split at h'
+      · cases h'; exact i2 _ _ _ _ _ _ hpc
+      · exact i2 _ _ _ _ _ _ h'
+
 end Mpc.Pool
